@@ -558,6 +558,9 @@ func GenValue(t *rapid.T, ty *Type, label string, easy bool) string {
 		if m := ty.Members[rapid.IntRange(0, len(ty.Members)-1).Draw(t, label+"-member")]; m.Base != "string" {
 			return GenValue(t, m, label, easy)
 		}
+		if !easy {
+			return rapid.SampledFrom([]string{"alpha", "x y", "n/a", "ü", " v ", "a<b&c"}).Draw(t, label)
+		}
 		return rapid.SampledFrom([]string{"alpha", "x y", "n/a", "ü"}).Draw(t, label)
 	}
 	return "v"
